@@ -311,6 +311,16 @@ Proof.
   - revert v l m Hin. apply kill_v_holds. apply (tmove_holds E V T d src w false H).
 Qed.
 
+Lemma pick_in (tls sls : list label) i : length tls = length sls -> length tls <> O ->
+  In (pick tls i, pick sls i) (combine tls sls).
+Proof.
+  intros Hl Hn. unfold pick. rewrite <- Hl.
+  set (j := Z.to_nat (i mod Z.max 1 (Z.of_nat (length tls)))).
+  assert (Hj : (j < length tls)%nat).
+  { unfold j. pose proof (Z.mod_pos_bound i (Z.max 1 (Z.of_nat (length tls))) ltac:(lia)). lia. }
+  rewrite <- (combine_nth tls sls j 0%N 0%N Hl). apply nth_In. rewrite combine_length. lia.
+Qed.
+
 (* ------------------------------------------------------------------ simulation *)
 Section Sim.
   Variable world : Type.
@@ -340,7 +350,7 @@ Section Sim.
     - subst. inversion Hc; subst. exists O, V. split; [reflexivity|assumption].
     - discriminate.
     - subst. inversion Hc; subst. exists O, V. split; [reflexivity|assumption].
-    - destruct (nth_error sp s) as [[o us ds|d v w|o us l|l|l|us]|] eqn:Hn; try discriminate.
+    - destruct (nth_error sp s) as [[o us ds|d v w|o us l|l|l|us|o us ls]|] eqn:Hn; try discriminate.
       + (* SMove *)
         destruct (IHfuel _ _ _ (set_v V d (tr w (V v))) (smove_holds _ _ _ d v w H) Hc) as [k [V' [Hr Hh]]].
         exists (S k), V'. split; [|assumption]. cbn [srun]. unfold RaIRModel.sstep. rewrite Hn. exact Hr.
@@ -392,9 +402,9 @@ Section Sim.
   Proof.
     intros Hc [_ [E [Hann H]]]. unfold check_pc in Hc. rewrite Hann in Hc.
     unfold RaIRModel.tstep.
-    destruct (nth_error tp t) as [[o tu td|d src w keep e|a b w|o tu l|l|l|tu]|] eqn:Ht; try discriminate.
+    destruct (nth_error tp t) as [[o tu td|d src w keep e|a b w|o tu l|l|l|tu|o tu tls]|] eqn:Ht; try discriminate.
     - (* TOp *)
-      destruct (nth_error sp s) as [[o' su sd|? ? ?|? ? ?|?|?|?]|] eqn:Hs; try discriminate.
+      destruct (nth_error sp s) as [[o' su sd|? ? ?|? ? ?|?|?|?|? ? ?]|] eqn:Hs; try discriminate.
       apply andb_true_iff in Hc. destruct Hc as [Hc He]. apply andb_true_iff in Hc. destruct Hc as [Ho Hu].
       apply N.eqb_eq in Ho. subst o'.
       destruct (defs_eqs E sd td) as [E'|] eqn:Hd; [|discriminate].
@@ -406,7 +416,7 @@ Section Sim.
     - (* TMove *)
       apply orb_true_iff in Hc. destruct Hc as [Hc | Hc].
       + (* matched with the source copy *)
-        destruct (nth_error sp s) as [[? ? ?|dv sv w'|? ? ?|?|?|?]|] eqn:Hs; try discriminate.
+        destruct (nth_error sp s) as [[? ? ?|dv sv w'|? ? ?|?|?|?|? ? ?]|] eqn:Hs; try discriminate.
         apply andb_true_iff in Hc. destruct Hc as [Hj He].
         unfold joint_ok in Hj. apply andb_true_iff in Hj. destruct Hj as [Hj Hi].
         apply andb_true_iff in Hj. destruct Hj as [Hj Hreg]. apply andb_true_iff in Hj. destruct Hj as [Hw Hk].
@@ -422,7 +432,7 @@ Section Sim.
       destruct (edge_sound sp ann s _ (t + 1)%nat V _ W (tswap_holds E V T a b w H Ha Hb Hd) He) as [k [cs' [Hr Hm]]].
       exists k, cs'. split; assumption.
     - (* TCond *)
-      destruct (nth_error sp s) as [[? ? ?|? ? ?|o' su l'|?|?|?]|] eqn:Hs; try discriminate.
+      destruct (nth_error sp s) as [[? ? ?|? ? ?|o' su l'|?|?|?|? ? ?]|] eqn:Hs; try discriminate.
       apply andb_true_iff in Hc. destruct Hc as [Hc He]. apply andb_true_iff in Hc. destruct Hc as [Ho Hu].
       apply N.eqb_eq in Ho. subst o'.
       destruct (find_tlabel l tp 0) as [t'|] eqn:Hft; [|discriminate].
@@ -442,9 +452,22 @@ Section Sim.
       destruct (edge_sound sp ann s E (t + 1)%nat V T W H Hc) as [k [cs' [Hr Hm]]].
       exists k, cs'. split; assumption.
     - (* TRet *)
-      destruct (nth_error sp s) as [[? ? ?|? ? ?|? ? ?|?|?|su]|] eqn:Hs; try discriminate.
+      destruct (nth_error sp s) as [[? ? ?|? ? ?|? ? ?|?|?|su|? ? ?]|] eqn:Hs; try discriminate.
       rewrite <- (check_uses_ok E V T H su tu Hc).
       exists 1%nat. rewrite srun_one. unfold RaIRModel.sstep. rewrite Hs. reflexivity.
+    - (* TJmpTab *)
+      destruct (nth_error sp s) as [[? ? ?|? ? ?|? ? ?|?|?|?|o' su sls]|] eqn:Hs; try discriminate.
+      apply andb_true_iff in Hc. destruct Hc as [Hc Hall]. apply andb_true_iff in Hc. destruct Hc as [Hc Hne].
+      apply andb_true_iff in Hc. destruct Hc as [Hc Hlen]. apply andb_true_iff in Hc. destruct Hc as [Ho Hu].
+      apply N.eqb_eq in Ho. subst o'. apply Nat.eqb_eq in Hlen. apply negb_true_iff in Hne. apply Nat.eqb_neq in Hne.
+      rewrite <- (check_uses_ok E V T H su tu Hu).
+      destruct (sem o (sread V su) W) as [res W'] eqn:Hsem.
+      pose proof (pick_in tls sls (hd 0%Z res) Hlen Hne) as Hin.
+      rewrite forallb_forall in Hall. specialize (Hall _ Hin). cbn [fst snd] in Hall.
+      destruct (find_tlabel (pick tls (hd 0%Z res)) tp 0) as [t'|] eqn:Hft; [|discriminate].
+      destruct (find_slabel (pick sls (hd 0%Z res)) sp 0) as [s'|] eqn:Hfs; [|discriminate].
+      eapply step_then_edge; [|eassumption|eassumption].
+      unfold RaIRModel.sstep. rewrite Hs, Hsem, Hfs. reflexivity.
   Qed.
 
   Lemma check_pc_of_check sp tp ann t x :
